@@ -8,6 +8,7 @@ import tlc
 import la
 
 ASSUME = [
+    "Shutdown: the fake reactor's recorded 'before shutdown' triggers are run by the harness; nothing is observed after it",
     "launch() runs on a fake reactor (spawnProcess returns a process transport that records signals; callLater is a Clock) with a "
     "scripted connection_creator; the control connection is a real TorControlProtocol served by SimTor, which withholds the replies "
     "to SETEVENTS STATUS_CLIENT / TAKEOWNERSHIP / RESETCONF until the script's CtlReply steps",
@@ -67,6 +68,8 @@ def rand_script(rng):
             if m and not attempted:
                 attempted = True
                 pending = True
+    if rng.random() < 0.3:
+        s.append(dict(a="Shutdown"))       # the application ends (possibly with Tor still running)
     return s
 
 
